@@ -2,6 +2,7 @@ import WnVerif.Drv.Graph
 import WnVerif.Drv.Morphy
 import WnVerif.Drv.Store
 import WnVerif.Drv.Validate
+import WnVerif.Drv.Project
 open Lean WnVerif.Drv
 
 def dispatch (j : Json) : Json :=
@@ -12,6 +13,7 @@ def dispatch (j : Json) : Json :=
   | "store" => opStore j
   | "glob" => opGlob j
   | "trace" => opTrace j
+  | "route" => opRoute j
   | "validate" => opValidate j
   | "ping" => jObj [("pong", jNat 1)]
   | op => jObj [("bad-op", jStr op)]
